@@ -53,6 +53,12 @@ def check(repo: Repo, rep, tier):
     from .C12 import codegen_text
 
     codegen_text(repo, rep)
+    from .C10 import update_walk_total
+
+    update_walk_total(repo, rep)
+    from .C18 import ctx_restore
+
+    ctx_restore(repo, rep)
 
 
 def role(e: ast.AST) -> str:
